@@ -130,6 +130,14 @@ try:
             bad.append(f"version hash of {mname} differs between outputs: " + str({k: hex(v) for k, v in hs.items()}))
     for s, cname in structs.items():
         pycls = getattr(mod, "MDF_" + s, None) or getattr(mod, s)
+        pyfields = [fn.lstrip("_") for fn, _ in pycls._fields_]
+        top = "MDF" if cname.startswith("MDF_") else "SDF"
+        m = re.search(rf"RTMA\.{top}\.{s} = \(\) => \{{\s*return \{{(.*?)\n  \}}", js, re.S)
+        if m:
+            jsfields = re.findall(r"^\s*(\w+):", m.group(1), re.M)
+            checked.append(("js-fields", s))
+            if jsfields != pyfields:
+                bad.append(f"field list of {s} differs: JavaScript {jsfields}, Python {pyfields}")
         if ("size", s) in cvals:
             if cvals[("size", s)] != ctypes.sizeof(pycls):
                 bad.append(f"sizeof({cname}) is {cvals[('size', s)]} in C and {ctypes.sizeof(pycls)} in Python")
